@@ -19,5 +19,8 @@ claim("C15", "SSA graph-cut + who-may-write + store-shape + dispatch-table rules
 claim("C13", "SSA graph-cut must-pass-through of every acceptance rule for Retry / Version Negotiation / transport-parameter authentication; select-case tables of the run loop",
       "Every path to a handshake-outcome-changing effect passes each rejection test (Retry: 5, VN: 5, connection-ID authentication: ISCID/ODCID/Retry SCID both ways); wrong-version, unexpected-SCID and client-side 0-RTT packets are dropped before unpacking; run-loop wait has close and timer cases; 0-RTT rejection resets every component. Convergence of both endpoints is not decided.",
       "DESIGN.md §3 C13")
-for pid in ["C01","C02","C03","C05","C08","C09","C10","C11","C12","C16","C17","C18","C19"]:
+claim("C16", "SSA graph-cut + effect pairing (removal ⇔ RETIRE_CONNECTION_ID / reset-token add-remove) + who-may-write/call + collection-coverage agreement over the connection-ID manager, generator and routing map",
+      "Every-path structural checks: issuing bounded by min(peer limit, cap) or one-for-one, Retire's guards, each removal of a peer ID paired with RETIRE_CONNECTION_ID carrying that entry's sequence number, reset tokens added/removed with ID state changes, close path releases routing exactly once and closes the ID manager, stand-ins scheduled for deletion, storage limit error. Routed-set equality over histories is not decided.",
+      "DESIGN.md §3 C16")
+for pid in ["C01","C02","C03","C05","C08","C09","C10","C11","C12","C17","C18","C19"]:
     na(pid, "rules for this property are designed (DESIGN.md §3) but not yet implemented in the checker; not claimed until they are")
